@@ -265,7 +265,7 @@ class Controller:
         self.workers = [Worker(i, self.body) for i in range(self.n)]
 
     # ---------------------------------------------------------------------------------------
-    def run(self, programs, prefix, reset_env, horizon=4000) -> Execution:
+    def run(self, programs, prefix, reset_env, horizon=4000, chooser=None) -> Execution:
         """programs[i] is handed to worker i.  The body performs an unscheduled setup phase
         (sends ("ready",)), then runs scheduled.  Choices follow `prefix`, then the default
         (keep running the same worker if still enabled, else the lowest enabled id)."""
@@ -340,7 +340,13 @@ class Controller:
                 still = running in enabled
                 order = ([running] if still else []) + [i for i in enabled if i != running]
                 ci = len(x.choices)
-                if ci < len(prefix):
+                if chooser is not None:
+                    # directed execution (e.g. following a behaviour of the TLA+ model)
+                    c = chooser(order, pending, mon)
+                    if c is None:
+                        x.verdicts.append(("model-behaviour-refused", "the implementation cannot take the step the model behaviour prescribes"))
+                        break
+                elif ci < len(prefix):
                     c = prefix[ci]
                     if c >= len(order):
                         raise WorkerHang(f"replay divergence: choice {c} out of range {len(order)} at point {ci}")
